@@ -170,7 +170,13 @@ impl<'i> RecipeCollector<'i, '_> {
                     // If define mode is ingredients, don't add the
                     // step to the section. The components should have been
                     // added to their lists
-                    if self.define_mode != DefineMode::Components || new_content.is_text() {
+                    let is_empty = match &new_content {
+                        Content::Step(step) => step.items.is_empty(),
+                        Content::Text(text) => text.is_empty(),
+                    };
+                    if !is_empty
+                        && (self.define_mode != DefineMode::Components || new_content.is_text())
+                    {
                         if new_content.is_step() {
                             self.step_counter += 1;
                         }
